@@ -1625,6 +1625,47 @@ theorem own_trigger_aux (thr : Int) (evs : List Ev) :
         refine AllPairs.cons ⟨by rw [hpos]; exact hk2, pv, ?_⟩ hm3
         exact getElem?_append_of_some _ _ _ _ (getElem?_append_of_some _ _ _ _ hk3)
 
+/-! ## the saturating addition of `SimpleTrigger` / `RunOnceTrigger` (`addNanos`) -/
+
+/-- no overflow: plain addition -/
+theorem satAdd_eq {t d : Int} (h : ¬ (d > 0 ∧ t + d > maxInt64)) : satAdd t d = t + d := by
+  unfold satAdd; rw [if_neg h]
+
+/-- overflow of a positive interval: the largest representable time -/
+theorem satAdd_sat {t d : Int} (hd : d > 0) (h : t + d > maxInt64) : satAdd t d = maxInt64 := by
+  unfold satAdd; rw [if_pos ⟨hd, h⟩]
+
+theorem satAdd_eq_of_le {t d : Int} (h : t + d ≤ maxInt64) : satAdd t d = t + d :=
+  satAdd_eq (fun hh => by omega)
+
+theorem satAdd_eq_of_nonpos {t d : Int} (h : d ≤ 0) : satAdd t d = t + d :=
+  satAdd_eq (fun hh => by omega)
+
+/-- never beyond the true sum -/
+theorem satAdd_le (t d : Int) : satAdd t d ≤ t + d := by
+  unfold satAdd; split <;> omega
+
+/-- the answer for a representable time is representable (at the upper end) -/
+theorem satAdd_le_max {t d : Int} (ht : t ≤ maxInt64) : satAdd t d ≤ maxInt64 := by
+  unfold satAdd; split <;> omega
+
+/-- a positive interval never answers a time before `t` (this is what the unrepaired wrapping addition violated) -/
+theorem satAdd_ge {t d : Int} (hd : d > 0) (ht : t ≤ maxInt64) : t ≤ satAdd t d := by
+  unfold satAdd; split <;> omega
+
+/-- ... and strictly after `t` unless `t` is already the largest representable time -/
+theorem satAdd_gt {t d : Int} (hd : d > 0) (ht : t < maxInt64) : t < satAdd t d := by
+  unfold satAdd; split <;> omega
+
+/-- monotone in the time argument -/
+theorem satAdd_mono {t t' d : Int} (h : t ≤ t') : satAdd t d ≤ satAdd t' d := by
+  unfold satAdd; split <;> split <;> omega
+
+theorem fire_simple (I prev : Int) : Trig.fire (.simple I) prev = (some (satAdd prev I), .simple I) := rfl
+
+theorem fire_runOnce (d prev : Int) :
+    Trig.fire (.runOnce d false) prev = (some (satAdd prev d), .runOnce d true) := rfl
+
 /-! ## no drift -/
 
 theorem dispTime_of_disp_none {o : Obs} (t : Nat) (h : ∀ pos, o.disp? pos = none) : o.dispTime? t = none := by
@@ -1632,7 +1673,7 @@ theorem dispTime_of_disp_none {o : Obs} (t : Nat) (h : ∀ pos, o.disp? pos = no
 
 theorem drift_step {thr : Int} {s s' : SState} {now : Int} {o : Obs} (hwf : WF s)
     (hk : Kind thr s (.step now) s' o) (x : Entry) (hx : x ∈ s.q.toList) (hxs : x.suspended = false)
-    (I : Int) (htr : s.trig x.tag = .simple I)
+    (I : Int) (htr : s.trig x.tag = .simple I) (hov : I ≤ 0 ∨ now + I ≤ maxInt64)
     (hno : ∀ out e, o.out = some out → out.popped = some e → e.tag = x.tag → out.cls ≠ some .outdated) :
     (o.dispTime? x.tag = none ∧ (∀ c ∈ o.calls, c.tag ≠ x.tag) ∧ x ∈ s'.q.toList ∧
       s'.trig x.tag = .simple I) ∨
@@ -1648,9 +1689,14 @@ theorem drift_step {thr : Int} {s s' : SState} {now : Int} {o : Obs} (hwf : WF s
     by_cases hex : e = x
     · subst hex
       right
-      obtain ⟨_, ⟨hc, hpv, _, _⟩ | ⟨hc, _⟩⟩ := askedWith_some_active ha
+      obtain ⟨_, ⟨hc, hpv, _, hdue⟩ | ⟨hc, _⟩⟩ := askedWith_some_active ha
       · subst hpv
-        have hr : r = some (e.prio + I) := by rw [← hf, htr]; rfl
+        -- dispatched only when due (`e.prio ≤ now`): the addition for the next fire time cannot overflow
+        have hsat : satAdd e.prio I = e.prio + I := by
+          rcases hov with hov | hov
+          · exact satAdd_eq_of_nonpos hov
+          · exact satAdd_eq_of_le (by omega)
+        have hr : r = some (e.prio + I) := by rw [← hf, htr, fire_simple, hsat]
         subst hr
         refine ⟨?_, rfl, ?_, ?_⟩
         · unfold Obs.dispTime?
@@ -1704,6 +1750,7 @@ theorem range_shift (k : Nat) (f I : Int) :
 theorem no_drift_aux (thr I : Int) (t : Nat) (evs : List Ev) :
     ∀ (s : SState) (x : Entry), WF s → x ∈ s.q.toList → x.suspended = false → x.tag = t →
       s.trig t = .simple I → OnlySteps evs → NeverOutdated t (run thr s evs).2 →
+      (I ≤ 0 ∨ ∀ now, Ev.step now ∈ evs → now + I ≤ maxInt64) →
       ∃ k : Nat,
         dispatchTimes t (run thr s evs).2 = (List.range k).map (fun (i : Nat) => x.prio + (i : Int) * I) ∧
         (callLog (run thr s evs).2).filter (fun c => c.tag == t) =
@@ -1713,12 +1760,15 @@ theorem no_drift_aux (thr I : Int) (t : Nat) (evs : List Ev) :
         (run thr s evs).1.trig t = .simple I := by
   induction evs with
   | nil =>
-    intro s x _ hx _ _ htr _ _
+    intro s x _ hx _ _ htr _ _ _
     refine ⟨0, rfl, rfl, ?_, htr⟩
     simpa using hx
   | cons ev evs ih =>
-    intro s x hwf hx hxs hxt htr hos hno
+    intro s x hwf hx hxs hxt htr hos hno hov
     obtain ⟨now, rfl⟩ := hos _ List.mem_cons_self
+    have hov1 : I ≤ 0 ∨ now + I ≤ maxInt64 := hov.imp id (fun h => h now List.mem_cons_self)
+    have hov2 : I ≤ 0 ∨ ∀ now', Ev.step now' ∈ evs → now' + I ≤ maxInt64 :=
+      hov.imp id (fun h now' hm => h now' (List.mem_cons_of_mem _ hm))
     have hk := apply_kind thr s hwf.wf0 (.step now)
     have hwf' := kind_wf hwf (fun t ht => by cases ht) hk
     rw [run_cons] at hno ⊢
@@ -1727,8 +1777,8 @@ theorem no_drift_aux (thr I : Int) (t : Nat) (evs : List Ev) :
       fun o ho => hno o (List.mem_cons_of_mem _ ho)
     have hos2 : OnlySteps evs := fun ev hev => hos ev (List.mem_cons_of_mem _ hev)
     subst hxt
-    rcases drift_step hwf hk x hx hxs I htr hno1 with ⟨h1, h2, h3, h4⟩ | ⟨h1, h2, h3, h4⟩
-    · obtain ⟨k, i1, i2, i3, i4⟩ := ih _ x hwf' h3 hxs rfl h4 hos2 hno2
+    rcases drift_step hwf hk x hx hxs I htr hov1 hno1 with ⟨h1, h2, h3, h4⟩ | ⟨h1, h2, h3, h4⟩
+    · obtain ⟨k, i1, i2, i3, i4⟩ := ih _ x hwf' h3 hxs rfl h4 hos2 hno2 hov2
       refine ⟨k, ?_, ?_, i3, i4⟩
       · unfold dispatchTimes at i1 ⊢
         rw [List.filterMap_cons, h1]; exact i1
@@ -1739,7 +1789,7 @@ theorem no_drift_aux (thr I : Int) (t : Nat) (evs : List Ev) :
           intro c hc
           simpa using h2 c hc
         rw [this]; rfl
-    · obtain ⟨k, i1, i2, i3, i4⟩ := ih _ { x with prio := x.prio + I } hwf' h3 hxs rfl h4 hos2 hno2
+    · obtain ⟨k, i1, i2, i3, i4⟩ := ih _ { x with prio := x.prio + I } hwf' h3 hxs rfl h4 hos2 hno2 hov2
       refine ⟨k + 1, ?_, ?_, ?_, i4⟩
       · unfold dispatchTimes at i1 ⊢
         rw [List.filterMap_cons, h1]
@@ -1763,6 +1813,77 @@ theorem no_drift_aux (thr I : Int) (t : Nat) (evs : List Ev) :
       · have : x.prio + I + (k : Int) * I = x.prio + ((k + 1 : Nat) : Int) * I := by
           rw [Int.natCast_succ, Int.add_mul, Int.one_mul]; omega
         rw [← this]; exact i3
+
+/-! ## an entry at the largest representable time (a saturated fire time) is left alone -/
+
+/-- one step at a clock reading before `maxInt64`: an active entry with fire time `maxInt64` is neither
+dispatched nor asked, it stays in the registry as it is and its trigger object is not touched -/
+theorem parked_step {thr : Int} {s s' : SState} {now : Int} {o : Obs} (hwf : WF s)
+    (hk : Kind thr s (.step now) s' o) (x : Entry) (hx : x ∈ s.q.toList) (hxs : x.suspended = false)
+    (hprio : x.prio = maxInt64) (hthr : 0 ≤ thr) (hnow : now < maxInt64) :
+    o.dispTime? x.tag = none ∧ (∀ c ∈ o.calls, c.tag ≠ x.tag) ∧ x ∈ s'.q.toList ∧
+      s'.trig x.tag = s.trig x.tag := by
+  cases hk with
+  | idle _ _ _ hmem hinv htrs hcalls hdisp hpop =>
+    refine ⟨dispTime_of_disp_none _ hdisp, (by rw [hcalls]; exact fun c hc => by cases hc),
+      (hmem x).mpr hx, ?_⟩
+    unfold SState.trig; rw [htrs]
+  | stepAsk _ e q1 pv r q' he hmin ha hf hmem1 hq' hinv =>
+    by_cases hex : e = x
+    · subst hex
+      exfalso
+      obtain ⟨_, ⟨_, _, _, hdue⟩ | ⟨_, _, hlate⟩⟩ := askedWith_some_active ha <;> omega
+    · have hte : x.tag ≠ e.tag := fun hh => hex (hwf.tags e he x hx hh.symm)
+      refine ⟨?_, ?_, ?_, ?_⟩
+      · unfold Obs.dispTime?
+        rw [disp_stepAsk]
+        by_cases hv : classify e now thr = .valid
+        · rw [if_pos hv]
+          show (if e.tag = x.tag then some e.prio else none) = none
+          rw [if_neg (fun hh => hte hh.symm)]
+        · rw [if_neg hv]
+      · intro c hc
+        rw [List.mem_singleton] at hc
+        subst hc
+        exact fun hh => hte hh.symm
+      · have hx1 : x ∈ q1.toList := (hmem1 x).mpr ⟨hx, fun hh => hex hh.symm⟩
+        rcases hq' with ⟨_, rfl⟩ | ⟨p, _, rfl⟩
+        · exact hx1
+        · exact (mem_hpush_iff _ _ _).mpr (Or.inr hx1)
+      · show ((({ s with q := q1 } : SState).setTrig e.tag _).trig x.tag) = _
+        exact trig_setTrig_other _ _ _ _ hte
+
+theorem parked_aux (thr : Int) (t : Nat) (evs : List Ev) (hthr : 0 ≤ thr) :
+    ∀ (s : SState) (x : Entry), WF s → x ∈ s.q.toList → x.suspended = false → x.tag = t →
+      x.prio = maxInt64 → OnlySteps evs → (∀ now, Ev.step now ∈ evs → now < maxInt64) →
+      dispatchTimes t (run thr s evs).2 = [] ∧
+      (∀ c ∈ callLog (run thr s evs).2, c.tag ≠ t) ∧
+      x ∈ (run thr s evs).1.q.toList ∧ (run thr s evs).1.trig t = s.trig t := by
+  induction evs with
+  | nil =>
+    intro s x _ hx _ _ _ _ _
+    exact ⟨rfl, (fun c hc => by cases hc), hx, rfl⟩
+  | cons ev evs ih =>
+    intro s x hwf hx hxs hxt hprio hos hnows
+    obtain ⟨now, rfl⟩ := hos _ List.mem_cons_self
+    have hk := apply_kind thr s hwf.wf0 (.step now)
+    have hwf' := kind_wf hwf (fun t ht => by cases ht) hk
+    have hos2 : OnlySteps evs := fun ev hev => hos ev (List.mem_cons_of_mem _ hev)
+    subst hxt
+    obtain ⟨h1, h2, h3, h4⟩ :=
+      parked_step hwf hk x hx hxs hprio hthr (hnows now List.mem_cons_self)
+    obtain ⟨i1, i2, i3, i4⟩ := ih _ x hwf' h3 hxs rfl hprio hos2
+      (fun now' hm => hnows now' (List.mem_cons_of_mem _ hm))
+    rw [run_cons]
+    refine ⟨?_, ?_, i3, i4.trans h4⟩
+    · unfold dispatchTimes at i1 ⊢
+      rw [List.filterMap_cons, h1]; exact i1
+    · intro c hc
+      unfold callLog at hc i2
+      rw [List.flatMap_cons, List.mem_append] at hc
+      rcases hc with hc | hc
+      · exact h2 c hc
+      · exact i2 c hc
 
 /-- what a successful `ScheduleJob` leaves behind -/
 theorem schedule_ok_facts (s : SState) (now : Int) (a : SchedArgs) (h : Inv s.q)
